@@ -46,3 +46,8 @@ REG.bounded_check("C01.instrumented_execution", ["C01"], "C01.bounded",
 REG.bounded_check("C10.determinism", ["C10"], "C10.bounded",
                   covers=["the whole checker on the corpus: union member order, listed names, message text"],
                   bound="9 source files (format mapping keys, unexpected keywords, or/and narrowing, unused variables, branch unions, protocols, overloads) x PYTHONHASHSEED in {0,1,2,3,7} in fresh subprocesses, and two check orders in one process; module-name tokens normalised")
+REG.bounded_check("C19.literal_operations", ["C19"], "C19.bounded",
+                  covers=["NameCheckVisitor.visit_BinOp / visit_UnaryOp / _check_dunder_call", "signature._maybe_perform_call", "attributes._get_attribute_from_known / _get_attribute_from_mro",
+                          "implementation subscript impls (tuple / str / list __getitem__)"],
+                  bound="12 literals x 9 binary operators x 12 literals (str/bytes % excluded: C17), 4 unary operators, 6 attribute names, 3 receivers x 6 literal indices, module/class/enum operands x 8 attributes and 3 operators: "
+                        "diagnosed <=> CPython raises TypeError/AttributeError (IndexError on the tuple), inferred Literal == evaluated result in value and type; known findings D30/D31 skipped")
